@@ -171,7 +171,7 @@ impl<'a> Gen<'a> {
             18 => "flag1() or 2".to_owned(),
             19 => "{ [get2()] = emit(5) }".to_owned(),
             _ => {
-                if depth < 2 {
+                if depth < 2 && self.callee_callable() && !matches!(self.target, Target::Inject { .. }) {
                     self.used.insert("nested-target-call");
                     let inner = self.target_call_expr(depth + 1, true);
                     // a nested profiling call as a last argument would be in multi-value position
@@ -759,6 +759,15 @@ impl<'a> Gen<'a> {
             return;
         }
         self.budget -= 1;
+        if !matches!(self.target, Target::Inject { .. }) && self.callee_is_global() && self.defect() && self.rng.chance(1, 6) {
+            // F31: a bare `local _ = …` produced by the rule shadows the program's own `_`
+            self.used.insert("defect:underscore-read-after-removed-call");
+            let callee = self.callee();
+            self.line("local _ = 9");
+            self.line(&format!("{}(t.x)", callee));
+            self.line("emit(_)");
+            return;
+        }
         match self.rng.below(12) {
             0..=4 => self.use_target(),
             5..=7 => self.shadow_scope(depth),
